@@ -16,6 +16,7 @@ from sched_locks import blank, match_close
 
 WM = "crates/emmylua_ls/src/context/workspace_manager.rs"
 LIB = "crates/emmylua_code_analysis/src/lib.rs"
+TD = "crates/emmylua_ls/src/handlers/text_document/text_document_handler.rs"
 
 
 def fns(s):
@@ -55,7 +56,39 @@ def extract(repo):
     rw = fns(lib).get("reload_workspace_files", "")
     a, b = rw.find("update_files_by_path"), rw.find("update_files_by_uri")
     prefers = bool(0 <= a < b and re.search(r"!\s*open_paths\s*\.\s*contains", rw[a:b]) and "open_files" in rw[b:b + 200])
-    return {"bumpOnSync": bump_sync, "bumpOnClose": bump_close, "syncLoop": sync_loop, "snapshotAtomic": snapshot_atomic,
+    # the handlers record the editor text unconditionally, before any `should_process` test, and ask the membership
+    # question in the same critical section (so the reload's snapshot contains every open document whatever its
+    # membership was when it was opened)
+    td = blank(open(os.path.join(repo, TD), encoding="utf-8").read())
+    tdf = fns(td)
+    sync_first, member_with_sync = True, True
+    for h in ("on_did_open_text_document", "on_did_change_text_document"):
+        b = tdf.get(h, "")
+        i_sync = b.find("sync_open_file(")
+        i_test = min([i for i in (b.find("should_process {"), b.find("!should_process"), b.find("if should_process")) if i >= 0] or [len(b)])
+        before = b[:i_sync] if i_sync >= 0 else b
+        ok = i_sync >= 0 and i_sync < i_test and not re.search(r"\breturn\b", before)
+        # `?` before the call is only allowed on the malformed-params exit `content_changes.first()?`
+        ok = ok and not re.search(r"\?", before.replace("content_changes.first()?", ""))
+        # the call is not inside an `if` / `match` / closure: its enclosing block is a bare or `let … = {` block of the fn body
+        depth, j, opener = 0, i_sync, None
+        while j > 0:
+            j -= 1
+            if b[j] == "}":
+                depth += 1
+            elif b[j] == "{":
+                if depth == 0:
+                    opener = j
+                    break
+                depth -= 1
+        head = b[:opener].rstrip()[-12:] if opener else ""
+        enclosing_fn_body = opener == 0
+        ok = ok and (enclosing_fn_body or head.endswith("=") or head.endswith(";") or head.endswith("}"))
+        sync_first = sync_first and bool(ok)
+        blk = b[opener:match_close(b, opener) + 1] if opener is not None else ""
+        member_with_sync = member_with_sync and re.search(r"is_workspace_file\s*\(", blk) is not None and "write()" in blk \
+            and re.search(r"is_workspace_file\s*\(", b[:opener or 0]) is None
+    return {"syncBeforeCheck": sync_first, "membershipWithSync": member_with_sync, "bumpOnSync": bump_sync, "bumpOnClose": bump_close, "syncLoop": sync_loop, "snapshotAtomic": snapshot_atomic,
             "prefersOpenText": prefers, "mutators": mutators}
 
 
@@ -66,7 +99,9 @@ def generate(root, repo, log):
         "import EmmyVerif.Model.SchedReload",
         "/-! GENERATED by checklib/gen/sched_reload.py from workspace_manager.rs / emmylua_code_analysis lib.rs on every run — do not edit. -/",
         "namespace Gen", "",
-        f"def reloadCfg : SchedReload.Cfg := {{ bumpOnSync := {lb(d['bumpOnSync'])}, bumpOnClose := {lb(d['bumpOnClose'])}, syncLoop := {lb(d['syncLoop'])} }}", "",
+        f"def reloadCfg : SchedReload.Cfg := {{ bumpOnSync := {lb(d['bumpOnSync'])}, bumpOnClose := {lb(d['bumpOnClose'])}, syncLoop := {lb(d['syncLoop'])}, syncBeforeCheck := {lb(d['syncBeforeCheck'])} }}", "",
+        "/-- the membership test is made in the critical section that records the editor text -/",
+        f"def reloadMembershipWithSync : Bool := {lb(d['membershipWithSync'])}",
         "/-- version and files of a snapshot are read in one critical section; a reload prefers the snapshot text of open files -/",
         f"def reloadSnapshotAtomic : Bool := {lb(d['snapshotAtomic'])}",
         f"def reloadPrefersOpenText : Bool := {lb(d['prefersOpenText'])}", "", "end Gen", ""])
